@@ -82,6 +82,7 @@ pub fn run_c15(cfg: &RunCfg, trace: bool) -> RunOut {
                     break;
                 }
                 cx.exec.roots[0] = cx.built[0].root.clone();
+                cx.exec.kept.clear();
                 x1.root = a1.root.clone();
                 x2.root = a2.root.clone();
                 cx.out.count("fault.restart_adapters_rebuilt");
